@@ -124,7 +124,7 @@ class Program:
                     j += 1
                 self._add_fn(crate, lines[i:j + 1]); i = j + 1; continue
             if ln.startswith("const ") or ln.startswith("static "):
-                m = re.match(r"^(?:const|static(?: mut)?) (.+?): (.+?) = const (.+);$", ln)
+                m = re.match(r"^(?:const|static(?: mut)?) (.+): (.+?) = const (.+);$", ln)
                 if m:
                     self._add_const(crate, m.group(1), ("lit", m.group(2), m.group(3)))
                 elif ln.endswith("= {"):
